@@ -49,6 +49,8 @@ const (
 type Step struct {
 	Kind StepKind `json:"kind"`
 	Err  string   `json:"err,omitempty"` // error text of an Error step
+	// Class selects a realistic error value for an Error step (see ErrClasses); it wins over Err.
+	Class string `json:"class,omitempty"`
 }
 
 // Tuple is a decoded Tuple(...) value, Array values are decoded to []any.
@@ -148,12 +150,13 @@ type Server struct {
 	events  []Event
 	changed chan struct{}
 
-	queue    []Step
-	perTable map[string][]Step
-	def      Step
-	decider  func(c *Call) *Step
-	refuse   int
-	pingErr  error
+	queue       []Step
+	perTable    map[string][]Step
+	def         Step
+	decider     func(c *Call) *Step
+	refuse      int
+	refuseClass string
+	pingErr     error
 
 	connects int
 	refused  int
@@ -212,6 +215,13 @@ func (s *Server) SetDecider(f func(c *Call) *Step) { s.mu.Lock(); s.decider = f;
 // RefuseConnect makes the next n factory calls fail.
 func (s *Server) RefuseConnect(n int) { s.mu.Lock(); s.refuse = n; s.mu.Unlock() }
 
+// RefuseConnectWith is RefuseConnect with the error class the factory returns.
+func (s *Server) RefuseConnectWith(n int, class string) {
+	s.mu.Lock()
+	s.refuse, s.refuseClass = n, class
+	s.mu.Unlock()
+}
+
 // SetPingErr makes Ping fail (nil = succeed).
 func (s *Server) SetPingErr(err error) { s.mu.Lock(); s.pingErr = err; s.mu.Unlock() }
 
@@ -229,6 +239,9 @@ func (s *Server) Connect() (ch_wrapper.IChClient, error) {
 		s.refuse--
 		s.refused++
 		s.event("connect-refused", 0, nil, "connection refused")
+		if s.refuseClass != "" {
+			return nil, ErrorOf(s.refuseClass, s.seq)
+		}
 		return nil, errors.New("fakech: connection refused")
 	}
 	s.clients++
@@ -439,6 +452,9 @@ func (c *Client) Do(ctx context.Context, q ch.Query) error {
 			msg = "fakech: scripted insert error"
 		}
 		err = errors.New(msg)
+		if step.Class != "" && call.RectErr == "" && call.ShapeErr == "" {
+			err = ErrorOf(step.Class, call.Seq)
+		}
 	default:
 		if e := ctx.Err(); e != nil {
 			err = e
@@ -502,7 +518,7 @@ func (c *Client) PutSetting(ctx context.Context, tp string, name string, value s
 	return errNotImpl
 }
 func (c *Client) GetFirst(req string, first ...interface{}) error { return errNotImpl }
-func (c *Client) GetList(req string) ([]string, error)           { return nil, errNotImpl }
+func (c *Client) GetList(req string) ([]string, error)            { return nil, errNotImpl }
 func (c *Client) Query(ctx context.Context, query string, args ...interface{}) (driver.Rows, error) {
 	return nil, errNotImpl
 }
